@@ -312,8 +312,16 @@ class GraphInitializers(collections.UserDict[str, "_core.Value"]):
     def update(self, other=(), /, **kwargs) -> None:
         """Update the initializers; all items are checked before the first one is stored."""
         items = list(dict(other, **kwargs).items())
+        # An unnamed value takes the name of the first key it is stored under: later items must see that name
+        names_to_be: dict[int, str] = {}
         for key, value in items:
             self._check_item(key, value)
+            name_to_be = names_to_be.setdefault(id(value), key)
+            if not value.name and key != name_to_be:
+                raise ValueError(
+                    f"Key '{key}' does not match the name '{name_to_be}' the value takes from an earlier item. "
+                    "Please use one key per value."
+                )
         for key, value in items:
             self[key] = value
 
